@@ -57,15 +57,22 @@ func hashOf(x any) int {
 	return int(h.Sum32() % 997)
 }
 
+// variablesOf: the variables of the enclosing query an expression reads (a quantifier's own variable is local to it)
 func variablesOf(x any) []string {
-	seen := map[string]bool{}
+	seen, local := map[string]bool{}, map[string]bool{}
 	_ = walk.CypherStructural(x, walk.NewSimpleVisitor[cypher.SyntaxNode](func(node cypher.SyntaxNode, _ walk.VisitorHandler) {
 		if v, ok := node.(*cypher.Variable); ok && v.Symbol != "" {
 			seen[v.Symbol] = true
 		}
+		if q, ok := node.(*cypher.IDInCollection); ok && q.Variable != nil {
+			local[q.Variable.Symbol] = true
+		}
 	}))
 	out := make([]string, 0, len(seen))
 	for v := range seen {
+		if local[v] {
+			continue
+		}
 		out = append(out, v)
 	}
 	sort.Strings(out)
